@@ -6,7 +6,7 @@ from vlib.gr1games import MODES
 ID = 'C04'
 LEVEL = 'proof'
 THEORIES = ['theories/L4/GR1Spec.vo', 'theories/L4/Duality.vo',
-            'theories/L4/Tables.vo']
+            'theories/L4/Tables.vo', 'theories/L4/Determinacy.vo']
 
 HEADER = '''From Coq Require Import List Bool Arith.
 Import ListNotations.
@@ -24,8 +24,9 @@ def prove(ctx):
         '_cycle_inside, _attractor_inside, solve_streett_game, '
         '_attractor_under_assumptions), fixpoint.py (step, trap)')
     ctx.assumptions.append(
-        'game-semantic reading of the Rabin fixpoint is not mechanised; '
-        'duality and fixpoint exactness are')
+        'C04_region_is_winning_region / C04_outside_environment_wins '
+        '(strategies over infinite plays) depend on the standard-library '
+        'axiom Classical_Prop.classic')
 
 
 def run_rabin(g):
